@@ -81,6 +81,9 @@ def check_parse_result(exp, line, diffs, aspects, pol, clean=True, base_out=0, s
         nd = len(line["diag"])
         if exp["ndiag"] == "0" and nd != 0:
             diffs.append(("diag", "accepted text delivered %d diagnostic(s): %r" % (nd, [x["msg"] for x in line["diag"]][:3])))
+        if st == "ok" and "ndep" in exp and nd != int(exp["ndep"]):
+            diffs.append(("diag", "accepted text delivered %d diagnostic(s), expected %s deprecation notice(s): %r" % (
+                nd, exp["ndep"], [x["msg"] for x in line["diag"]][:3])))
         if exp["ndiag"] == "some" and nd == 0:
             diffs.append(("diag", "rejected text delivered no diagnostic"))
         if exp["ndiag"] == "some" and nd > 0 and "diagpos" in aspects:
